@@ -32,9 +32,9 @@ RULE = (
     "formatted, replacement kind, root tag)."
 )
 SHARDS = {"quick": 16, "thorough": 16}
-TIMEOUT = {"quick": 400, "thorough": 3600}
+TIMEOUT = {"quick": 400, "thorough": 7200}
 MIN_EVALS = {"quick": 100000, "thorough": 1500000}
-CASES = {"quick": 3000, "thorough": 40000}
+CASES = {"quick": 3000, "thorough": 400000}
 ASSUMPTIONS = [
     "matches do not span text nodes (documented); the element's own text for search positions is the ODF reading of the root element (no tail)",
     "input trees are in white-space normal form, as odfdo and office applications write them",
@@ -317,7 +317,7 @@ def part_scripts(ctx, res):
     from .. import doclab as DL
 
     rng = ctx.rng("scripts")
-    n_docs = 6 if ctx.quick else 60
+    n_docs = 6 if ctx.quick else 400
     for d in range(n_docs):
         spec = DL.gen_doc_spec(rng, kind="text")
         spec["table"] = rng.random() < 0.3
